@@ -69,6 +69,10 @@ for v in ck.violations:
                     bad = True
             prev = c
         v['replayed'] = bad
+    elif v['obligation'] == 'E2_leader_state_reinitialised':
+        rep = Replay.call({'op': 'raft_become_leader_twice', 'pre': w['pre'], 'peers': [f'p{i}' for i in range(w['peers'])], 'old_match': w.get('old_match', [])})
+        v['native'] = rep
+        v['replayed'] = rep.get('violates')
     elif v['obligation'] == 'T0_vote_stable_within_term':
         rep = Replay.call({'op': 'raft_vote_stability', 'pre': w['pre'], 'handler': w['handler'], 'msg': w['msg'], 'peers': ['p1', 'p2']})
         v['native'] = rep
